@@ -1,5 +1,4 @@
 use cosmwasm_std::{Deps, Env, StdError, StdResult, Uint128};
-use margined_common::integer::Integer;
 use margined_perp::margined_vamm::{
     CalcFeeResponse, ConfigResponse, Direction, OwnerResponse, StateResponse,
 };
@@ -245,15 +244,23 @@ pub fn query_is_over_spread_limit(deps: Deps) -> StdResult<bool> {
     // get the local market price of the vamm
     let market_price = query_spot_price(deps)?;
 
-    let current_spread_ratio = (Integer::new_positive(market_price)
-        - Integer::new_positive(oracle_price))
-        * Integer::new_positive(config.decimals)
-        / Integer::new_positive(oracle_price);
+    // |market - oracle| / oracle, computed with a full-precision product (prices of a nearly
+    // drained pool do not leave room for another factor of `decimals` in 128 bits)
+    let spread = if market_price > oracle_price {
+        market_price - oracle_price
+    } else {
+        oracle_price - market_price
+    };
 
-    let max_oracle_spread_ratio: Integer =
-        Integer::new_positive(config.decimals).checked_div(Integer::from(10u128))?; // 0.1 i.e. 10%
+    let max_oracle_spread_ratio: Uint128 = config.decimals.checked_div(Uint128::from(10u128))?; // 0.1 i.e. 10%
 
-    Ok(current_spread_ratio.abs() >= max_oracle_spread_ratio)
+    // a ratio too large for the type is certainly over the limit
+    Ok(
+        match spread.checked_multiply_ratio(config.decimals, oracle_price) {
+            Ok(current_spread_ratio) => current_spread_ratio >= max_oracle_spread_ratio,
+            Err(_) => true,
+        },
+    )
 }
 
 /// Returns bool to show is fluctuation limit has been exceeded
